@@ -110,7 +110,7 @@ def run_tlc(module, cfg_text, env=None, workers=1, timeout=1800, extra=None):
         cfgp = os.path.join(scratch, "run.cfg")
         open(cfgp, "w").write(cfg_text)
         cmd = ["timeout", str(timeout), "tlc", "-workers", str(workers), "-metadir", os.path.join(scratch, "meta"),
-               "-config", cfgp] + (extra or []) + [module]
+               "-noGenerateSpecTE", "-config", cfgp] + (extra or []) + [module]
         e = dict(os.environ)
         if env:
             e.update(env)
@@ -154,7 +154,7 @@ def tv_cfg(invs, props, consts=None):
     return s
 
 
-def batches(files, max_bytes=40_000_000):
+def batches(files, max_bytes=9_000_000):
     cur, size, out = [], 0, []
     for f in files:
         sz = os.path.getsize(f)
@@ -192,7 +192,7 @@ def validate_traces(files, invs, props, formulas_for_known=None):
         path, index, ln = job
         rc, out, wall = run_tlc("Trace.tla", cfg, env={"TRACE": path}, workers=1, timeout=3000)
         return job, rc, out
-    with ThreadPoolExecutor(max_workers=max(1, min(6, NCPU // 2))) as ex:
+    with ThreadPoolExecutor(max_workers=max(1, min(10, NCPU - 4))) as ex:
         results = list(ex.map(one, jobs))
     for (path, index, ln), rc, out in results:
         r = parse_tlc(out)
@@ -371,9 +371,13 @@ def setup():
     os.makedirs(os.path.join(CACHE, "scratch"), exist_ok=True)
     sh = src_hash()
     build_harness(sh)
-    # syntax check of all specs
-    for f in sorted(glob.glob(os.path.join(SPEC, "*.tla"))):
-        r = subprocess.run(["timeout", "120", "tla-sany", os.path.basename(f)], cwd=SPEC, stdout=subprocess.PIPE, stderr=subprocess.STDOUT, text=True)
+    # syntax check of the specs the registered checks use
+    mods = {"Trace.tla", "Props.tla"}
+    for pr in P.PROPS.values():
+        for mc in pr.get("mc", []):
+            mods.add(mc["module"])
+    for f in sorted(mods):
+        r = subprocess.run(["timeout", "120", "tla-sany", f], cwd=SPEC, stdout=subprocess.PIPE, stderr=subprocess.STDOUT, text=True)
         if r.returncode != 0 or "Semantic errors" in r.stdout or "*** Errors" in r.stdout:
             log(r.stdout[-2000:])
             print("ERROR: SANY failed for", f)
